@@ -509,7 +509,22 @@ def c11_edge(spec, fam, position, edge, variant):
         obj = res.new_object()
         target = seq.navigate(obj, position)
         args = {}
-        obs = realize.perform(target, lab, variant, None, args=args)
+        res2 = None
+        if variant >= 100:
+            # the argument is itself a synced collection of the laxer JSON family holding the dotted keys (root or nested)
+            variant -= 100
+            an = "x" if "x" in lab else "y"
+            plain = val.to_py(lab[an])
+            s2 = env.spec_by_name("JSONDict")
+            res2 = s2.new_resource()
+            res2.write_raw({"src": copy.deepcopy(plain), "z": 0})
+            args[("given", an)] = res2.new_object()["src"]
+            args[an] = plain
+        try:
+            obs = realize.perform(target, lab, variant, None, args=args)
+        finally:
+            if res2 is not None:
+                res2.dispose()
         given = {}
         if "k" in lab:
             given[val.key_to_py(lab["k"])] = None
@@ -595,7 +610,8 @@ def check_C11(tier):
     run = common.Run("C11", tier)
     run.cov["rule"] = ("MC_PyOps tier=forbid: every mutating entry point x target (root / nested dict / nested list / "
                        "depth 3) x forbidden item kind (non-str key, non-JSON leaf, dotted key for attr families) x "
-                       "position of the forbidden item inside the argument; the operation must raise a TypeError/"
+                       "position of the forbidden item inside the argument (dotted keys also inside a synced collection of the plain JSON "
+                       "family passed as the argument); the operation must raise a TypeError/"
                        "ValueError subclass, memory (no-load walk) and raw backend must stay free of forbidden items, "
                        "a rejected single-element operation must change nothing; plus constructor data; public API "
                        "names enumerated by reflection must all be known to the spec")
@@ -616,6 +632,12 @@ def check_C11(tier):
                         continue
                     es = rnd.sample(edges, per) if per and len(edges) > per else edges
                     js = [(position, e, rnd.randrange(realize.n_variants(kind, e["lab"]))) for e in es]
+                    if fam == "attr":
+                        for e in es:
+                            an = "x" if "x" in e["lab"] else ("y" if "y" in e["lab"] else None)
+                            if an and e["lab"][an]["t"] in ("d", "l") and rnd.random() < 0.5 and \
+                                    _arg_forbidden_kinds(val.to_py(e["lab"][an]), "attr") == {"dotted"}:
+                                js.append((position, e, 100 + rnd.randrange(realize.n_variants(kind, e["lab"]))))
                     for (_p, e, _v) in js:
                         run._distinct.add((fam, kind, val.canon(e["pre"]), val.canon(e["lab"])))
                     for ch in common.chunks(js, 2):
@@ -657,7 +679,7 @@ def check_C17(tier):
     run.cov["rule"] = ("every read edge of MC_PyOps (item access, get, len, iteration, membership, ==, ordering, (), "
                        "keys/values/items, slices, index/count) on existing and on missing resources for all 18 classes, "
                        "with an audit hook on open()/os.replace and inode/size/mtime (or the fakes' write counters) "
-                       "compared; multi-handle histories of Contract.tla (reads and navigation); read-only input "
+                       "compared; reads of a populated object whose resource another program deleted; multi-handle histories of Contract.tla (reads and navigation); read-only input "
                        "sequences of BufContract.tla inside nested buffered contexts of both strategies validated by "
                        "TLC (no file written, none created, nothing raised)")
     run.assumptions += ["bounded as spec/MC_PyOps.tla, MC_Contract.tla, MC_BufContract.tla", "Redis/MongoDB/Zarr on fakes"]
@@ -686,6 +708,40 @@ def check_C17(tier):
                 run.case(("repr", spec.name, missing))
             finally:
                 res.dispose()
+    # a populated collection whose resource disappears behind its back (another program deletes it): whatever the
+    # reads return, they must not bring the resource back
+    for spec in env.matrix():
+        res = spec.new_resource()
+        try:
+            doc = {"a": [1, {"b": None}], "c": 2} if spec.kind == "d" else [1, {"b": None}, 2]
+            res.write_raw(copy.deepcopy(doc))
+            o = res.new_object()
+            o()                                     # the object now holds the content in memory
+            child = o["a"] if spec.kind == "d" else o[1]
+            res.write_raw(env.MISSING)
+            wc0 = res.write_count()
+            seq.audit_start()
+            outcomes = []
+            for name, fn in (("len", lambda: len(o)), ("iter", lambda: list(iter(o))), ("call", lambda: o()),
+                             ("eq", lambda: o == doc), ("repr", lambda: repr(o)), ("contains", lambda: "a" in o),
+                             ("child-len", lambda: len(child)), ("child-call", lambda: child())):
+                try:
+                    fn()
+                    outcomes.append(name)
+                except Exception as e:  # noqa: BLE001 - what a read of a vanished resource returns is not C17's subject
+                    outcomes.append(f"{name}:{type(e).__name__}")
+                if res.exists():
+                    run.violation({"cls": spec.name, "op": "read-after-delete:" + name, "aspect": "nowrite",
+                                   "detail": f"the read {name} re-created the resource that another program had deleted "
+                                             f"(content now {res.read_raw()!r})"})
+                    break
+            ev = seq.audit_stop()
+            if not res.exists() and (seq.writes_to(res, ev) or (wc0 is not None and res.write_count() != wc0)):
+                run.violation({"cls": spec.name, "op": "read-after-delete", "aspect": "nowrite",
+                               "detail": f"reads of a deleted resource wrote to the backend: {ev}"})
+            run.case(("read-after-delete", spec.name))
+        finally:
+            res.dispose()
     # histories (reads + navigation through several handles)
     from . import chk_contract
     rnd = random.Random(common.seed())
